@@ -1095,13 +1095,14 @@ class TorConfig:
                         initial = defaults[name[:-5]]
                     except KeyError:
                         default_key = '__{}'.format(name[:-5])
-                        default = yield self.protocol.get_conf_single(default_key)
-                        if not default:
+                        initial = yield self.protocol.get_conf_single(default_key)
+                        if not initial or initial == DEFAULT_VALUE:
                             initial = []
-                        else:
-                            initial = [default]
                 else:
-                    initial = [self.parsers[rn].parse(v)]
+                    initial = v
+                # one line comes back as a string, several as a list
+                if not isinstance(initial, list):
+                    initial = [initial]
                 self.config[rn] = _ListWrapper(
                     initial, functools.partial(self.mark_unsaved, rn))
 
